@@ -40,7 +40,8 @@ Alphabet (events are tuples; the last field of R/AP/AA is the deviation tag):
         [dev]: which = zero | last (newest issued id) | last-1 | last+50 -> Message("ChatFromViewer", packet_id=N),
         reliable flag or not (non-synthetic, so not tracked for resends: only the id / one-datagram clauses apply);
         which = echo -> the newest delivered peer packet's own Message object (packet_id = the peer's id) is turned
-        around (direction OUT) and sent back, as a subscriber might.  Not offered in cfg shared.
+        around (direction OUT) and sent back, as a subscriber might.  AB and SP are not offered in cfg shared (it differs
+        from solo on the dispatch side only); both flag values only for "last" (and "zero" before anything was issued).
   ("SU",) client circuit.send(ChatFromViewer) unreliable, at most MAX_SU per history
   ("T", "short"|"past"|"long")  virtual time advances by interval/3 | interval+0.5 | (budget-1)*interval seconds
         (interval = circuit.resend_every, budget = ReliableResendInfo.tries_left default; both read from the code);
@@ -356,8 +357,9 @@ class Harness:
                 evs.append(("AA", dup_carrier, ids, 1))
         # both ack forms in ONE PacketAck datagram: every (body, appendix) pair of subsets of the outstanding ids with a
         # non-empty appendix -- appendix-only, disjoint splits, overlapping; (body-only is AP above)
+        # (not in cfg shared, which differs from solo on the receive/dispatch side only)
         subsets = [tuple(outstanding[i] for i in range(n) if mask >> i & 1) for mask in range(0, 1 << n)]
-        for body in subsets:
+        for body in (subsets if self.cfg != "shared" else ()):
             for app in subsets[1:]:
                 disjoint_split = bool(body) and not set(body) & set(app)
                 evs.append(("AB", body, app, 0 if disjoint_split else 1))
@@ -366,7 +368,8 @@ class Harness:
             last = w.last_issued
             whiches = ["zero"] + (["last"] if last is not None else []) + (["last-1"] if last else []) + ["last+50"]
             for which in whiches:
-                for rel in (0, 1):
+                # the reliable flag never meets the id logic: both flag values for "last" only, the rest unreliable
+                for rel in ((0, 1) if which == "last" or last is None else (0,)):
                     evs.append(("SP", which, rel, 1))
             if w.echo_msg is not None:
                 evs.append(("SP", "echo", 1 if int(w.echo_msg.send_flags) & F_REL else 0, 1))
